@@ -937,7 +937,11 @@ func (p Sqlite) GetAlertHistoryByAlertID(alertHistoryParams *alertutils.AlertHis
 
 	alertHistory := make([]*alertutils.AlertHistoryDetails, 0)
 
-	query := p.db.Where("alert_id = ?", alertHistoryParams.AlertId).Order(
+	query := p.db.Where("alert_id = ?", alertHistoryParams.AlertId)
+	if alertHistoryParams.EvaluationsOnly {
+		query = query.Where("event_description <> ?", alertutils.ConfigChange)
+	}
+	query = query.Order(
 		clause.OrderByColumn{Column: clause.Column{Name: clause.PrimaryColumn.Name}, Desc: alertHistoryParams.SortOrder == alertutils.DESC}).Offset(int(alertHistoryParams.Offset)).Limit(int(alertHistoryParams.Limit))
 
 	err = query.Find(&alertHistory).Error
